@@ -27,11 +27,12 @@ ID = "C12"
 LEVEL = "exploration"
 RUN_WALL_S = 30
 SYS_MAX_LEN = 4
+SYSTEMATIC_STRIDE = 2          # even case indices 0..139806 are the systematic sweep, odd ones (and all later ones) are drawn
 TIERS = {
     "quick": {"cases": 160_000, "episode": 400, "selftest": 96, "wall_cap_s": 600, "shrink_s": 45},
     "thorough": {"cases": 20_000_000, "episode": 2000, "selftest": 1024, "wall_cap_s": 3 * 3600, "shrink_s": 120},
 }
-RULE = ("cases 0..69903 are the systematic sweep of every history of length 1..4 over {UNSEG,FIRST,CONT,LAST} x 2 APIDs x "
+RULE = ("the even case indices 0..139806 are the systematic sweep of every history of length 1..4 over {UNSEG,FIRST,CONT,LAST} x 2 APIDs x "
         "{in-sequence, gap} (a warm-up for short histories); later cases draw, from one seed, either a direct history "
         "(flag, APID, counter step per arrival; up to 60 arrivals, 1-4 APIDs incl. 0 and 2047 -- or 33-48 APIDs each with "
         "an open group --, counters starting near 16383, version/type/secondary-header bits varying between segments) or a producer/multiplexer/space-link simulation with drop, dup, delay-reorder, flag-flip, count-jump and "
@@ -47,8 +48,12 @@ COMPONENTS = {
 ASSUMPTIONS = [
     "an UNSEGMENTED packet arriving while a group of the same APID is open is parsed alone and does not end that group "
     "(the statement's list of dropped packets does not include this case); every history has exactly one accepted behaviour",
-    "a 'warning' is a warnings.warn() of any category and text, or a WARNING-level log record of a space_packet_parser.xtce "
-    "logger; warnings are required only at arrivals the model drops with a warning: CONT/LAST with no "
+    "the verdict on outputs is the SEQUENCE of outputs against the model; WHEN an output is yielded relative to the framer "
+    "being pulled is not judged (a library may frame ahead). Warnings are judged only in runs where the attribution seam is "
+    "validated by the outputs (every output yielded while its completing arrival was the last one pulled, at least one "
+    "before the end of the stream); otherwise they are unjudged (probes attribution_inconsistent / attribution_unvalidated)",
+    "a 'warning' is a warnings.warn() of any category and text, or a WARNING-level log record of a space_packet_parser "
+    "logger (the framer's own logger is ignored when the stream has a torn tail); warnings are required only at arrivals the model drops with a warning: CONT/LAST with no "
     "open group and a LAST closing a group with a sequence gap; only in the one-arrival-per-recv configuration, where a "
     "warning is attributable to an arrival; all other warnings are unjudged",
     "outputs are compared by raw_data; the definition is header-only so decoded values are not in play",
@@ -56,7 +61,7 @@ ASSUMPTIONS = [
 ]
 EXPECTED_PROBES = ("wrap_in_group", "three_apids_open", "orphan_after_complete", "orphan_after_rejected", "sh_gt_segment",
                    "u_while_open", "superseded_first", "group_emitted", "group_gap_rejected", "drop", "dup", "reorder",
-                   "flag_flip", "count_jump", "producer_restart", "link_cut", "header_bits_vary", "wide_open_groups")
+                   "flag_flip", "count_jump", "producer_restart", "link_cut", "header_bits_vary", "wide_open_groups", "warnings_judged")
 COV_UNIVERSE = 32
 
 U, F, C, L = factory.FLAG_UNSEG, factory.FLAG_FIRST, factory.FLAG_CONT, factory.FLAG_LAST
@@ -262,6 +267,7 @@ def run(ch, render=False):
     stream = b"".join(stream_parts)
     # link cut: the downlink dies at a drawn byte offset (file torn / peer closes); only the arrivals delivered
     # completely before the cut are history, whatever group was open at that moment is never emitted
+    torn_tail = False
     if mode != "direct_simple" and stream and ch.chance(1, 6, "link_cut"):
         cut = ch.draw(len(stream) + 1, "cut_at")
         stream = stream[:cut]
@@ -274,6 +280,7 @@ def run(ch, render=False):
         if n_keep < len(arrivals):
             w.fault("link_cut")
         del arrivals[n_keep:]
+        torn_tail = len(stream) != sum(k + len(a_[3]) for a_ in arrivals)
     n_arr = len(arrivals)
 
     # ---- probes on the history (computed with the deterministic reading A of the model) -----
@@ -377,7 +384,8 @@ def run(ch, render=False):
     # would not be reported. The framer's own logger (trailing-bytes messages after a link cut) does not count.
     class _Cap(logging.Handler):
         def emit(self, record):
-            if record.levelno >= logging.WARNING and record.name.startswith("space_packet_parser.xtce"):
+            if record.levelno >= logging.WARNING and record.name.startswith("space_packet_parser") and not (
+                    torn_tail and record.name == "space_packet_parser.packets"):
                 n_warn[0] += 1
                 warned_at.add(pulled[0] - 1)
     cap_handler = _Cap(level=logging.WARNING)
@@ -442,13 +450,14 @@ def run(ch, render=False):
             if rd is None:
                 out.fail("wrong_type", f"output of type {tn} has no raw_data ({desc})")
                 break
-    if out.violation is None:
-        # configurations: (position in observed, tuple of per-APID states in apids order)
+    def accept(per_arrival_mode):
+        """Run the reference model over the history against the observed outputs. ``per_arrival_mode`` False: only the
+        sequence of outputs is judged; True: additionally each output must come at its arrival and required warnings
+        must be raised while their arrival is handled. Returns None or (kind, message)."""
         apid_ix = {}
-        for a in arrivals:
-            apid_ix.setdefault(a[0], len(apid_ix))
+        for a_ in arrivals:
+            apid_ix.setdefault(a_[0], len(apid_ix))
         configs = {(0, (None,) * len(apid_ix))}
-        fail = None
         for i, (apid, flag, cnt, pkt) in enumerate(arrivals):
             ax = apid_ix[apid]
             new = set()
@@ -461,39 +470,64 @@ def run(ch, render=False):
                                           f"produce an output made of arrivals {list(emit)}; none was yielded")
                             continue
                         at, rd, _tn = observed[pos]
-                        if per_arrival and at != i:
+                        if per_arrival_mode and at != i:
                             why = why or ("missing_output" if (at is None or at > i) else "unexpected_output",
                                           f"arrival {i} ({FLAG_NAME[flag]} apid {apid}) should produce an output made "
                                           f"of arrivals {list(emit)}; next output was yielded at arrival {at}")
                             continue
                         exp = expected_raw(arrivals, emit, sh)
                         if rd != exp:
-                            why = why or ("wrong_output", f"output at arrival {i} (arrivals {list(emit)}): got "
+                            why = why or ("wrong_output" if len(rd) == len(exp) or rd[:6] == exp[:6] else "unexpected_output",
+                                          f"output {pos}, expected from arrivals {list(emit)} (complete at arrival {i}): got "
                                           f"{len(rd)}B {rd[:24].hex()}, expected {len(exp)}B {exp[:24].hex()}")
                             continue
                         npos = pos + 1
                     else:
-                        if per_arrival and pos < len(observed) and observed[pos][0] == i:
+                        if per_arrival_mode and pos < len(observed) and observed[pos][0] == i:
                             why = why or ("unexpected_output", f"arrival {i} ({FLAG_NAME[flag]} apid {apid} count {cnt}) "
                                           f"must not produce an output, but {len(observed[pos][1])}B "
                                           f"{observed[pos][1][:24].hex()} was yielded there")
                             continue
-                        if per_arrival and warn_req and i not in warned_at:
+                        if per_arrival_mode and warn_req and i not in warned_at:
                             why = why or ("missing_warning", f"arrival {i} ({FLAG_NAME[flag]} apid {apid} count {cnt}) is "
                                           f"dropped by the model with a warning; no warning was raised while it was handled")
                             continue
                         npos = pos
                     new.add((npos, states[:ax] + (ns,) + states[ax + 1:]))
             if not new:
-                fail = why or ("mismatch", f"no accepted behaviour at arrival {i}")
-                break
+                return why or ("mismatch", f"no accepted behaviour at arrival {i}")
             configs = new
-        if fail is None:
-            if not any(pos == len(observed) for (pos, _s) in configs):
-                pos = max(p for (p, _s) in configs)
-                at, rd, _tn = observed[pos]
-                fail = ("unexpected_output", f"output {pos} ({len(rd)}B {rd[:24].hex()}"
-                        + (f", yielded at arrival {at}" if at is not None else "") + ") is explained by no arrival group")
+        if not any(pos == len(observed) for (pos, _s) in configs):
+            pos = max(p for (p, _s) in configs)
+            at, rd, _tn = observed[pos]
+            return ("unexpected_output", f"output {pos} ({len(rd)}B {rd[:24].hex()}"
+                    + (f", yielded at arrival {at}" if at is not None else "") + ") is explained by no arrival group")
+        return None
+
+    if out.violation is None:
+        # (1) the verdict on WHAT is emitted: the sequence of outputs against the model, independent of when the framer
+        #     was pulled (a library may frame ahead of what it is handling)
+        fail = accept(False)
+        if fail is None and per_arrival:
+            # (2) warnings are attributable to arrivals only if the attribution seam behaves lazily in this run. That is
+            #     validated by the outputs themselves: every output must have been yielded while its completing arrival was
+            #     the last one pulled, and at least one of them before the end of the stream (an eager framer would show
+            #     every output "at" the last arrival).
+            emits = []
+            st_ = {}
+            for i, (apid, flag, cnt, pkt) in enumerate(arrivals):
+                (ns, emit, _wr), = transitions(st_.get(apid), i, flag, consecutive_of)
+                st_[apid] = ns
+                if emit is not None:
+                    emits.append(i)
+            ats = [o[0] for o in observed]
+            if ats != emits:
+                w.probe("attribution_inconsistent")          # frames ahead: outputs judged by sequence only, warnings unjudged
+            elif not any(i < n_arr - 1 for i in emits):
+                w.probe("attribution_unvalidated")           # nothing in this run can tell lazy from eager: warnings unjudged
+            else:
+                w.probe("warnings_judged")
+                fail = accept(True)
         if fail is not None:
             out.fail(fail[0], f"{fail[1]} ({desc})")
 
